@@ -67,6 +67,27 @@ def gate_statement_ids(block):
 NAMED = []
 
 
+def count_sub_ir(c):
+    """Subcircuit blocks in the body and in the macro definitions of a circuit (each is expanded where it stands)."""
+    from jaqalpaq.core import BlockStatement, LoopStatement
+
+    n = 0
+    stack = [c.body] + [m.body for m in c.macros.values()]
+    seen = set()
+    while stack:
+        s_ = stack.pop()
+        if id(s_) in seen:
+            return None  # shared objects: not counted
+        seen.add(id(s_))
+        if isinstance(s_, LoopStatement):
+            stack.append(s_.statements)
+        elif isinstance(s_, BlockStatement):
+            if s_.subcircuit:
+                n += 1
+            stack.extend(s_.statements)
+    return n
+
+
 def bounding_defs(block, pname, mname, exclude=()):
     """gate_def objects of every prepare/measure statement reachable from block that the pass
     created (statements that already existed in the input are excluded by identity)."""
@@ -199,6 +220,12 @@ def judge_pass(case):
         defs = bounding_defs(r.body, pname, mname, old)
         for m in r.macros.values():
             defs += bounding_defs(m.body, pname, mname, old)
+        # one statement of each of the two names in effect per subcircuit block of the input, and no other new zero-argument
+        # statements (a caller's name that the gate set does not know is still the caller's name)
+        nsub_in = count_sub_ir(c)
+        got_names = [nm for nm, _d in NAMED]
+        if nsub_in is not None and pname != mname and (got_names.count(pname) != nsub_in or got_names.count(mname) != nsub_in):
+            fails.append(("bounding-gates-not-the-names-in-effect", {"subcircuit blocks": nsub_in, pname: got_names.count(pname), mname: got_names.count(mname)}))
         if caller not in ("defs", "defs-native-names"):
             # a bounding gate named like a gate of the circuit's own gate set IS that gate, each name on its own
             for nm, d in NAMED:
